@@ -860,7 +860,7 @@ macro_rules! ti_rc5 {
 }
 macro_rules! ti_gost_user {
     ($v:ident; $($seed:expr),*) => {$(
-        ti!($v, magma::Gost89<UserSbox<$seed>>, format!("magma::Gost89<UserSbox<{}>>", $seed), "Gost89", "magma", 8, |l| l == 32, "never", &["gost", "89", "user"], vec![]);
+        ti!($v, magma::Gost89<UserSbox<$seed>>, format!("magma::Gost89<UserSbox<{}>>", $seed), "Gost89", "magma", 8, |l| l == 32, "never", &["gost", "user"], vec!["89".into()]);
     )*};
 }
 
@@ -902,12 +902,12 @@ pub fn types() -> Vec<TypeInfo> {
         ti!(v, kuz_neon::Kuznyechik, "S:kuz_neon::Kuznyechik", "Kuznyechik", "kuznyechik", 16, |l| l == 32, "never", &["kuznyechik"], vec![]);
         ti_halves!(v, kuz_neon, "S:kuz_neon", KuznyechikEnc, KuznyechikDec, "kuznyechik", 32, "never", &["kuznyechik"], vec![]);
     }
-    ti!(v, magma::Magma, "magma::Magma", "Magma", "magma", 8, |l| l == 32, "never", &["gost", "89", "tc26"], vec![]);
-    ti!(v, magma::Gost89Test, "magma::Gost89Test", "Gost89Test", "magma", 8, |l| l == 32, "never", &["gost", "89", "test"], vec![]);
-    ti!(v, magma::Gost89CryptoProA, "magma::Gost89CryptoProA", "Gost89CryptoProA", "magma", 8, |l| l == 32, "never", &["gost", "89", "cryptoproa"], vec![]);
-    ti!(v, magma::Gost89CryptoProB, "magma::Gost89CryptoProB", "Gost89CryptoProB", "magma", 8, |l| l == 32, "never", &["gost", "89", "cryptoprob"], vec![]);
-    ti!(v, magma::Gost89CryptoProC, "magma::Gost89CryptoProC", "Gost89CryptoProC", "magma", 8, |l| l == 32, "never", &["gost", "89", "cryptoproc"], vec![]);
-    ti!(v, magma::Gost89CryptoProD, "magma::Gost89CryptoProD", "Gost89CryptoProD", "magma", 8, |l| l == 32, "never", &["gost", "89", "cryptoprod"], vec![]);
+    ti!(v, magma::Magma, "magma::Magma", "Magma", "magma", 8, |l| l == 32, "never", &["magma|gost"], vec![]);
+    ti!(v, magma::Gost89Test, "magma::Gost89Test", "Gost89Test", "magma", 8, |l| l == 32, "never", &["gost", "test"], vec!["89".into()]);
+    ti!(v, magma::Gost89CryptoProA, "magma::Gost89CryptoProA", "Gost89CryptoProA", "magma", 8, |l| l == 32, "never", &["gost", "cryptoproa"], vec!["89".into()]);
+    ti!(v, magma::Gost89CryptoProB, "magma::Gost89CryptoProB", "Gost89CryptoProB", "magma", 8, |l| l == 32, "never", &["gost", "cryptoprob"], vec!["89".into()]);
+    ti!(v, magma::Gost89CryptoProC, "magma::Gost89CryptoProC", "Gost89CryptoProC", "magma", 8, |l| l == 32, "never", &["gost", "cryptoproc"], vec!["89".into()]);
+    ti!(v, magma::Gost89CryptoProD, "magma::Gost89CryptoProD", "Gost89CryptoProD", "magma", 8, |l| l == 32, "never", &["gost", "cryptoprod"], vec!["89".into()]);
     ti_gost_user!(v; 0, 1, 2, 6, 7);
     ti!(v, belt_block::BeltBlock, "belt_block::BeltBlock", "BeltBlock", "belt-block", 16, |l| l == 32, "never", &["belt"], vec![]; nodebug);
     ti!(v, serpent::Serpent, "serpent::Serpent", "Serpent", "serpent", 16, |l| (16..=32).contains(&l), "never", &["serpent"], vec![]);
